@@ -212,11 +212,29 @@ func (m *oidModel) ctrlAuth(ctrl []byte, p *oidProof, w oidWit) bool {
 		return false
 	}
 	if oidIsID(ctrl) {
-		return p.single && m.keyAuth(ctrl, p.index, w)
+		if !p.single {
+			// the contract reads whatever bytes it is given as a number: a signer list whose
+			// encoding happens to be a non-negative 64-bit number names a key index
+			n := common.BigIntFromNeoBytes(p.field())
+			if n.Sign() < 0 || !n.IsUint64() {
+				return false
+			}
+			return m.keyAuth(ctrl, uint64(uint32(n.Uint64())), w)
+		}
+		return m.keyAuth(ctrl, p.index, w)
 	}
 	g := oidParseGroup(ctrl, 0)
-	if g == nil || p.single {
+	if g == nil {
 		return false
+	}
+	if p.single {
+		// the contract reads whatever bytes it is given as a signer list: the bytes of a key
+		// index can parse as an (often empty) list, which satisfies a group that asks for nobody
+		signers, ok := oidDecodeSigners(p.field())
+		if !ok {
+			return false
+		}
+		return m.groupAuth(g, signers, w)
 	}
 	return m.groupAuth(g, p.signers, w)
 }
